@@ -727,6 +727,11 @@ impl Song {
         y
     }
     pub fn change_cur_track(&mut self, no: usize) {
+        // a pending octave-once (` or ") belongs to the track it was written on
+        if self.flags.octave_once != 0 {
+            self.tracks[self.cur_track].octave -= self.flags.octave_once;
+            self.flags.octave_once = 0;
+        }
         self.cur_track = no as usize;
         // new track ?
         while self.tracks.len() <= self.cur_track {
